@@ -5,6 +5,7 @@
 
 #include <etl/_config/all.hpp>
 
+#include <etl/_cmath/copysign.hpp>
 #include <etl/_type_traits/is_constant_evaluated.hpp>
 
 namespace etl {
@@ -14,7 +15,7 @@ namespace detail {
 template <typename T>
 [[nodiscard]] constexpr auto signbit_fallback(T arg) noexcept -> bool
 {
-    return arg == T(-0.0) || arg < T(0);
+    return etl::detail::copysign(T(1), arg) < T(0);
 }
 
 } // namespace detail
